@@ -69,7 +69,9 @@ quick.append(job("c13.csvc", secs=60, allow=AL, n=3, pat=5, symx=0, symw=1, x0=0
 
 # ---- nu-SVC end to end ------------------------------------------------------------------------------------
 quick.append(job("c13.nusvc", secs=60, allow=ALD, qto=500, n=2, pat=1, nu=2, symx=1, only=BOX | EQ | KKT))
-quick.append(job("c13.nusvc", secs=60, allow=ALD, qto=500, n=3, pat=5, nu=2, symx=1, only=BOX | EQ | KKT, div=3))
+quick.append(job("c13.nusvc", secs=60, allow=ALD, qto=500, n=3, pat=5, nu=2, symx=1, sep=1, only=BOX | EQ | KKT, div=3))
+# the same labels on points whose classes interleave (optimal margin zero): recorded finding F42
+quick.append(job("c13.nusvc", secs=30, allow=ALD, n=3, pat=5, nu=2, symx=0, x0=4, x1=3, x2=-7, only=BOX | EQ))
 quick.append(job("c13.nusvc", secs=60, allow=ALD, qto=500, n=2, pat=1, nu=2, symx=1, only=DEC, kern=2))
 quick.append(job("c13.nusvc", secs=30, allow=ALD, qto=500, n=2, pat=1, nu=2, symx=1, only=DEC, kern=0))       # D8: linear hyperplane not divided by r
 quick.append(job("c13.nusvc", secs=30, allow=ALD, qto=500, n=4, pat=5, nu=2, symx=1, distinct=1, only=FINITE))           # D4 end to end
@@ -107,7 +109,7 @@ for pat in PATS3:
     for cp, cn in ((4, 4), (8, 1), (1, 16)):
         thorough.append(job("c13.csvc", secs=300, allow=AL, qto=1000, n=3, pat=pat, symx=1, cp=cp, cn=cn, shrink=0, only=ALL, div=6))
 for nu in (1, 2, 4):
-    thorough.append(job("c13.nusvc", secs=300, jobs=2, allow=ALD, qto=2000, n=3, pat=5, nu=nu, symx=1, only=BOX | EQ | KKT, div=6))
+    thorough.append(job("c13.nusvc", secs=300, jobs=2, allow=ALD, qto=2000, n=3, pat=5, nu=nu, symx=1, sep=1, only=BOX | EQ | KKT, div=6))
     thorough.append(job("c13.oneclass", secs=300, jobs=2, allow=AL, qto=2000, n=3, nu=nu, div=0))
     thorough.append(job("c13.oneclass", secs=300, jobs=2, allow=AL, qto=2000, n=4, nu=nu))
 for xs in DYADIC:
